@@ -241,6 +241,13 @@ func (w *World) VerifyFunc(fs *FuncSpec) {
 		return
 	}
 	for _, c := range fs.Clauses {
+		if c.Kind == "checked" {
+			// a clause that is NOT turned into an obligation: it is evaluated on concrete executions of
+			// the real function on every run (bounded check, reported as such)
+			w.Checked[strings.TrimPrefix(fs.Pkg, modPath+"/")+"."+fs.Name] = append(w.Checked[strings.TrimPrefix(fs.Pkg, modPath+"/")+"."+fs.Name], c.Text)
+		}
+	}
+	for _, c := range fs.Clauses {
 		if c.Kind == "trusted" {
 			// the body is outside the verifier's reach: the contract is an ASSUMPTION for callers
 			// (a bounded concrete check of it may be configured per property)
